@@ -83,6 +83,32 @@ class C05:
         cov["exhaustive"] = True
         cov["exhaustive_part"] = ne
         cov["random_part"] = m
+        # schedule half ("dispatches racing with membership changes made from other threads"): the real Send against
+        # concurrent Add/RemoveBackend, with at least one backend registered at every instant and doubles that never
+        # fail: no dispatch may panic, fail, or be delivered other than exactly once.  Supporting evidence for the
+        # all-interleavings theorem C05_schedules_safe.
+        plans = [(700, 2, 3, 2), (500, 1, 1, 3), (500, 3, 2, 1)] if tier == "quick" else \
+                [(3000, p, c, s) for p in (1, 2, 3) for c in (1, 2, 4) for s in (1, 2, 4)]
+        stress = [Case("rrstress", "st%d" % i, list(p), {"kind": "race-stress", "plan": list(p)}) for i, p in enumerate(plans)]
+        got = lib.run_impl(ctx["drv"], stress, ctx["work"], tag="stress")
+        tot = {"sends": 0, "errors": 0, "panics": 0, "delivered": 0}
+        for c in stress:
+            o = got.get(c.id, [b"crash"])
+            if o[:1] in ([b"crash"], [b"panic"]) or len(o) < 5:
+                failures.append({"kind": "crash", "has_input": True, "component": "rrstress", "case_id": c.id, "case_line": c.line(),
+                                 "summary": "the race stress died: %s" % [lib.show(t, 300) for t in o[:2]], "meta": c.meta})
+                continue
+            sends, errs, panics, delivered = (int(x) for x in o[:4])
+            for k_, v in zip(("sends", "errors", "panics", "delivered"), (sends, errs, panics, delivered)):
+                tot[k_] += v
+            if errs or panics or delivered != sends:
+                failures.append({"kind": "judge", "has_input": True, "component": "rrstress", "case_id": c.id, "case_line": c.line(), "meta": c.meta,
+                                 "counts": {"sends": sends, "errors": errs, "panics": panics, "delivered": delivered},
+                                 "first_panic": lib.show(o[4], 300),
+                                 "summary": "dispatches racing with membership changes: %d sends, %d failed, %d panicked (%s), %d delivered "
+                                            "although %d backend(s) were registered the whole time" % (sends, errs, panics, lib.show(o[4], 120), delivered, c.meta["plan"][1])})
+        cov["race_stress"] = tot
+        cov["evaluations"] += len(stress)
         return {"coverage": cov, "failures": failures}
 
 
